@@ -71,4 +71,18 @@ def applyArgsOp (es : List Expr) (p : Path) (op : ListOp) : List Expr :=
   | some e => applyEdit es e
   | none => es
 
+/-! ## `insert` with a Python index -/
+
+/-- The index at which `container.insert(i, ..)` puts its pieces into a content list of
+length `n`: resolved once, as `list.insert` does (`max(0, n + i)` for a negative `i`,
+`min(i, n)` otherwise); all pieces go there, in order: the splice `l[i:i] = pieces`. -/
+def pyInsertIndex (n : Nat) (i : Int) : Nat := pyClampInsert n i
+
+/-- `container.insert(i, *ns)` for any integer `i`, as an edit of the current document
+(`none`: no node at `c`). -/
+def insertEdit (es : List Expr) (c : Path) (i : Int) (ns : List Expr) : Option EditOp :=
+  match getAtRoot es c with
+  | some y => some (.insert c (pyInsertIndex y.body.length i) ns)
+  | none => none
+
 end TexSoup
